@@ -33,6 +33,63 @@ def _queue_push_blocks(ctx, fn):
     return [bb for (bb, m, t) in u.calls.get('queue', []) if m == 'push_back']
 
 
+def _conversion_sources(k, F, lit_bb):
+    """A literal answer that is produced by converting a private answer enum at the boundary (`match answer { Keep => true, Done => false }`,
+    `answer.keeps_polling()` = `matches!(..)`): the blocks that really decide are the ones that build that variant of the enum.
+    -> blocks that construct the variant which leads to lit_bb, or [] when lit_bb is not an arm of such a conversion."""
+    for sb, b in enumerate(k.blocks):
+        t = b['term']
+        if not t or t['k'] != 'switch' or b['cleanup']:
+            continue
+        X = None
+        for s_ in b['stmts']:
+            if s_['k'] == 'assign' and s_['rv']['k'] == 'discr':
+                pl = s_['rv']['pl']
+                if not pl['p']:
+                    X = pl['l']
+                elif all(p_['k'] == 'deref' for p_ in pl['p']):
+                    # `&answer` handed to a (now inlined) method: follow the reference temporaries back to the local they point at
+                    l_ = pl['l']
+                    for _ in range(6):
+                        ds_ = [d_ for d_ in k.defs().get(l_, []) if not k.blocks[d_[1]]['cleanup']]
+                        if len(ds_) != 1 or ds_[0][0] != 'stmt':
+                            break
+                        rv_ = ds_[0][3]
+                        if rv_['k'] == 'ref' and not rv_['pl']['p']:
+                            X = rv_['pl']['l']
+                            break
+                        if rv_['k'] == 'ref' and all(p_['k'] == 'deref' for p_ in rv_['pl']['p']):
+                            l_ = rv_['pl']['l']
+                        elif rv_['k'] == 'use' and rv_['op']['k'] in ('copy', 'move') and not rv_['op']['pl']['p']:
+                            l_ = rv_['op']['pl']['l']
+                        else:
+                            break
+        if X is None:
+            continue
+        ety = ty_head(clean_ty(k.local_ty(X) or ''))
+        adt = F.adts.get(ety)
+        if not adt or adt.get('kind') != 'Enum' or ety in ('desync::QueueState',):
+            continue
+        tg = [(str(v), tb) for v, tb in t['targets']]
+        hit = [v for v, tb in tg if tb == lit_bb or (edom(k, tb, lit_bb))]
+        variants = [str(v_['discr']) for v_ in adt['variants']]
+        if not hit and (t['otherwise'] == lit_bb or edom(k, t['otherwise'], lit_bb)):
+            rest = [v for v in variants if v not in [x for x, _ in tg]]
+            hit = rest if len(rest) == 1 else []
+        if len(hit) != 1:
+            continue
+        want = hit[0]
+        names = dict((str(v_['discr']), v_['name']) for v_ in adt['variants'])
+        # every definition of X (through moves, wrapper payloads, inlined returns) that builds that variant
+        from .ordq import trace_sources
+        leaves = trace_sources(k, {'l': X, 'p': []})
+        okx = bool(leaves) and all(kind_ == 'agg' and what_.get('adt') == ety for kind_, bx_, what_ in leaves)
+        out = [bx_ for kind_, bx_, what_ in (leaves or []) if kind_ == 'agg' and str(what_.get('variant')) == names.get(want)]
+        if okx and out:
+            return out
+    return []
+
+
 def pipe_result_blocks(ctx, k):
     """What a pipe's poll coroutine `k` answers, in the terms of its only consumer (PipeContext::poll): blocks of k that set the result to
     a value on which PipeContext::poll releases the poll function ("stop") and blocks that set any other value ("keep").
@@ -133,7 +190,11 @@ def pipe_result_blocks(ctx, k):
                                 if proj:
                                     return None
                                 if kind == 'bool' and rv2['k'] == 'use' and rv2['op']['k'] == 'const':
-                                    outl.append((bb2, str(rv2['op'].get('val'))))
+                                    conv = _conversion_sources(k, F, bb2)
+                                    if conv:
+                                        outl += [(bx_, str(rv2['op'].get('val'))) for bx_ in conv]
+                                    else:
+                                        outl.append((bb2, str(rv2['op'].get('val'))))
                                 elif kind == 'enum' and rv2['k'] == 'agg' and rv2.get('adt') == ty:
                                     v2 = [str(x_['discr']) for x_ in F.adts[ty]['variants'] if x_['name'] == rv2.get('variant')]
                                     if not v2:
@@ -389,20 +450,70 @@ def c08(ctx):
                         if not pl['p'] and pl['l'] in ends and s['pl']['l'] not in ends:
                             ends[s['pl']['l']] = ends[pl['l']]
                             changed = True
+        # channel ends bundled into tuples / small structs and taken out again (`let (job_channels, future_channels) = sync_channels()`):
+        # carry[local] = ends the value holds, fieldmap[local][i] = ends held by its i-th component
+        carry = dict((l_, {e_}) for l_, e_ in ends.items())
+        fieldmap = {}
+        changed = True
+        rounds_ = 0
+        while changed and rounds_ < 20:
+            changed = False
+            rounds_ += 1
+            for b in fs.blocks:
+                for s in b['stmts']:
+                    if s['k'] != 'assign' or s['pl']['p']:
+                        continue
+                    d_ = s['pl']['l']
+                    rv = s['rv']
+                    new_c, new_f = set(), None
+                    if rv['k'] == 'agg' and rv.get('ak') in ('tuple', 'adt'):
+                        new_f = {}
+                        for i_, o in enumerate(rv.get('ops', [])):
+                            if o['k'] in ('move', 'copy') and not o['pl']['p']:
+                                c_ = carry.get(o['pl']['l'], set())
+                                if c_:
+                                    new_f[i_] = set(c_)
+                                    new_c |= c_
+                                    if o['pl']['l'] in fieldmap:
+                                        new_f[(i_, 'sub')] = fieldmap[o['pl']['l']]
+                    elif rv['k'] == 'use' and rv['op']['k'] in ('move', 'copy'):
+                        pl = rv['op']['pl']
+                        src = pl['l']
+                        if not pl['p']:
+                            new_c = set(carry.get(src, set()))
+                            new_f = fieldmap.get(src)
+                        elif all(p_['k'] == 'field' for p_ in pl['p']) and src in carry:
+                            fm = fieldmap.get(src)
+                            cur = None
+                            for p_ in pl['p']:
+                                if isinstance(fm, dict) and p_.get('i') in fm:
+                                    cur = fm[p_['i']]
+                                    fm = fm.get((p_['i'], 'sub'))
+                                else:
+                                    cur = None
+                                    break
+                            new_c = set(cur) if cur is not None else set(carry.get(src, set()))
+                            new_f = fm if cur is not None else None
+                    if new_c and not new_c <= carry.get(d_, set()):
+                        carry[d_] = carry.get(d_, set()) | new_c
+                        changed = True
+                    if new_f and d_ not in fieldmap:
+                        fieldmap[d_] = new_f
+                        changed = True
         job_ends, fut_ends = set(), set()
         for b in fs.blocks:
             for s in b['stmts']:
                 if s['k'] == 'assign' and s['rv']['k'] == 'agg' and s['rv']['ak'] == 'closure':
                     cl = F.fn(s['rv']['def'])
-                    kids = [cl] + ([c for c in _children(ctx, fs.name) if c.parent == cl.name] if cl else [])
-                    if any(calls(k, 'SchedulerFutureSignaller::signal') for k in kids if k):
+                    kids = [cl] + ([c for c in _children(ctx, fs.name) if c.parent == cl.name or (F.fn(c.parent) is not None and F.fn(c.parent).is_helper)] if cl else [])
+                    if any(calls(k, 'SchedulerFutureSignaller::signal') for k in kids if k) and (cl is None or not calls(cl, 'SyncFuture::new')):
                         for o in s['rv']['ops']:
-                            if o['k'] in ('move', 'copy') and not o['pl']['p'] and o['pl']['l'] in ends:
-                                job_ends.add(ends[o['pl']['l']])
+                            if o['k'] in ('move', 'copy') and not o['pl']['p']:
+                                job_ends |= carry.get(o['pl']['l'], set())
         for bb, t in calls(fs, 'SyncFuture::new'):
             for a in t['args']:
-                if a['k'] in ('move', 'copy') and not a['pl']['p'] and a['pl']['l'] in ends:
-                    fut_ends.add(ends[a['pl']['l']])
+                if a['k'] in ('move', 'copy') and not a['pl']['p']:
+                    fut_ends |= carry.get(a['pl']['l'], set())
         key = 'future_sync|channel-pairing'
         if len(chans) == 2 and len(ends) >= 4 and (len(job_ends) < 2 or len(fut_ends) < 2):
             out.append(bad(R, key, 'an end of the two hand-shake channels is not handed to the slot job / the SyncFuture (job %s, future %s): dropped early, its peer sees "finished"/"cancelled" at once and the operation runs outside its slot' % (sorted(job_ends), sorted(fut_ends)), fn=fs.name))
@@ -1912,9 +2023,27 @@ def c12(ctx):
                     for s in b['stmts']:
                         if s['k'] == 'assign' and s['rv']['k'] == 'use' and s['rv']['op']['k'] == 'copy' and any(p['k'] == 'field' and p['n'] == 'closed' for p in s['rv']['op']['pl']['p']):
                             closed_true = t['otherwise']
+            if closed_true is None:
+                from .ordq import field_test_edges
+                fte = field_test_edges(pn, 'closed')
+                if len(fte) == 1:
+                    closed_true = fte[0][1]
+            some_e = edge_for(e, OPTION, 'Some') if e else None
+            closed_false = None
+            if closed_true is not None:
+                for bb, b in enumerate(pn.blocks):
+                    t = b['term']
+                    if t and t['k'] == 'switch' and not b['cleanup'] and t['otherwise'] == closed_true and t['targets']:
+                        closed_false = t['targets'][0][1]
+            from .ordq import feasible_reach
+
+            def only_after(edge, other, b):
+                # b is reached only through `edge`: by dominance, or - when the test result travelled through a helper's return value - because
+                # no feasible path leads from the opposite edge to b
+                return edom(pn, edge, b) or (other is not None and not feasible_reach(pn, other, {b}, set()))
             if none_e is None or not ends or closed_true is None:
                 out.append(undecided(R, key, 'shape not recognised'))
-            elif all(edom(pn, none_e, b) and edom(pn, closed_true, b) for b in ends):
+            elif all(only_after(none_e, some_e, b) and only_after(closed_true, closed_false, b) for b in ends):
                 out.append(ok(R, key, 'the stream ends only when nothing is buffered and the core is closed', fn=pn.name))
             else:
                 out.append(bad(R, key, 'the consumer can be told the stream ended while outputs are still buffered or the input is still open', fn=pn.name))
@@ -2196,6 +2325,27 @@ def _enum_swap_table(fn, enum_path):
                     written.add(e[2].split('::')[-1])
                 if not s['pl']['p'] and e[0] == 'agg' and e[2] in ('core::option::Option::Some', 'core::option::Option::None') and 'Waker' in fn.local_ty(s['pl']['l']):
                     opt.add(e[2].split('::')[-1])
+        # the new state / the waker to wake computed into locals by the arm (a transition function returning `(new state, Option<Waker>)`)
+        # and stored after the match: the values that reach the store *from this arm*
+        from .ordq import trace_sources
+        for b2, blk in enumerate(fn.blocks):
+            if blk['cleanup'] or b2 not in fn.reachable_blocks(tgt):
+                continue
+            for s in blk['stmts']:
+                if s['k'] != 'assign' or s['rv']['k'] != 'use' or s['rv']['op']['k'] not in ('copy', 'move'):
+                    continue
+                to_state = s['pl']['p'] and all(p['k'] == 'deref' for p in s['pl']['p']) and clean_ty(s['rv']['op']['pl'].get('ty') or '') == enum_path
+                to_opt = not s['pl']['p'] and 'Waker' in fn.local_ty(s['pl']['l']) and 'Option<' in clean_ty(fn.local_ty(s['pl']['l']))
+                if not (to_state or to_opt):
+                    continue
+                leaves = trace_sources(fn, s['rv']['op']['pl'])
+                for kind_, lbb, what_ in (leaves or []):
+                    if kind_ != 'agg' or lbb is None or not (lbb == tgt or edom(fn, tgt, lbb)):
+                        continue
+                    if to_state and str(what_.get('adt')) == enum_path:
+                        written.add(str(what_.get('variant')))
+                    if to_opt and str(what_.get('adt')) == 'core::option::Option':
+                        opt.add(str(what_.get('variant')))
         if not written:
             written = set(default)
         table[v['name']] = (written, opt)
